@@ -298,10 +298,12 @@ def replay(pid, path):
             return 1
         print("replay of %s: property %s holds on the current tree" % (path, pid))
         return 0
-    if eng in ("kgraph", "kvalue", "khist"):
+    if eng in ("kgraph", "kvalue", "khist", "kconf"):
         from .main import Result
         res = Result()
-        if eng == "kgraph":
+        if eng == "kconf":
+            engine_kconf.run(pid, "quick", data.get("seed", 0), res, only=[rp["case"]])
+        elif eng == "kgraph":
             engine_kgraph.run(pid, "quick", data.get("seed", 0), res, only=[rp["case"]])
         elif eng == "kvalue":
             engine_kvalue.run(pid, "quick", data.get("seed", 0), res, only=[dict(prog=rp["prog"], args=rp["args"])])
@@ -379,6 +381,15 @@ REGISTRY["C16"] = dict(engines=[engine_kthread.run_threads], rule=("K-thread cas
 REGISTRY["C17"] = dict(engines=[engine_kthread.run_async, engine_ksched], rule=("K-async: every generated describing function built in both flavours: value, executed node multiset; gathered concurrent awaits with distinct arguments vs the plain reference; "
                        "event-loop liveness: an async-thread node that completes only after a sibling coroutine of the same loop has run || " + SCHED_RULE),
                        assumptions=["the event loop itself (asyncio) is not modelled; liveness is monitored"])
+
+from . import engine_kconf  # noqa: E402
+
+CONF_RULE = ("K-conf cases: random DAGs (priorities, sequential flags, three resources, tags incl. tags equal to node ids) and 1-4 reconfiguration steps through config_from_dict / _yaml / _json "
+             "(keys = ids, tags, unknown aliases, keys reaching one node twice; entries naming priority and/or is_sequential or nothing; optional max_concurrency); after each step the attribute table, "
+             "max_concurrency and accepted/ValueError are compared with Reconf.kconf evaluated in coqc, then one run checks the scheduler is handed exactly those attributes")
+for _p in ("C04", "C05", "C07", "C08"):
+    REGISTRY[_p]["engines"] = list(REGISTRY[_p]["engines"]) + [engine_kconf.run]
+    REGISTRY[_p]["rule"] = REGISTRY[_p]["rule"] + " || " + CONF_RULE
 
 REGISTRY["C02"]["engines"] = [engine_ksched, engine_kvalue.run]
 REGISTRY["C02"]["rule"] = SCHED_RULE + " || " + VALUE_RULE
